@@ -29,6 +29,7 @@ func C13(r *core.Run) {
 	provNames(r)
 	provRefs(r)
 	provEnumPrefix(r)
+	siblingCountChoices(r)
 }
 
 // provNumbers (R-PROV/V1).
